@@ -115,3 +115,42 @@ check('C19',
       TRUSTED + 'EvictionPossible = FALSE (metadata of a .gs file stays in the library cache until close); crashes inside a library call are out of scope.',
       'TLA+ spec (SigStore) model-checked with TLC; TLC trace validation of recorded storage calls; crash-point enumeration on the real writer',
       'DESIGN.md 5 (C19)')
+
+check('C13',
+      'Exhaustive TLC model check of the executor protocol (submit in order, start when a worker is free, finish/fail in any order, '
+      'collect completed futures, store at the file index, return only after all collected) for up to 4/5 files, 2/3 workers, 1/2 '
+      'failing files - every interleaving - with the negative control "results in completion order"; conformance in both directions: '
+      '(generator) TLC emits every completion permutation x failing set with the outcome the spec requires, and each is FORCED on the '
+      'real calc_file_signatures through a caller-supplied executor whose futures complete one at a time in exactly that order; '
+      '(trace) real thread and process pools (1..16 workers, size-skewed files, an unreadable file at each position) are wrapped, their '
+      'submit/done/increment/return events are validated against the spec by TLC (Trace_CalcFiles, Start and the collected future '
+      'inferred); plus sequential / own-pool modes with file-size permutations, fewer workers than files and more files than CPUs.',
+      TRUSTED + 'Returned signatures are identified with files by content (files have pairwise distinct signatures).',
+      'TLA+ spec (CalcFiles) model-checked with TLC; TLC-generated completion orders forced on the code; TLC trace validation of real pools',
+      'DESIGN.md 5 (C13)')
+
+check('C05',
+      'TLC model checks of (a) the chunk loop of jaccarddist_matrix and the row loop of jaccarddist_pairwise over abstract distance '
+      'tokens (every cell holds the token of its own (query, selected reference) pair, written exactly once; condensed offsets; meter '
+      'total) for all index selections with repeats and chunk sizes, (b) the OpenMP prange loop with dynamic schedule and private '
+      'begin/end under every thread interleaving, with the shared-temporaries negative control, (c) the per-cell merge kernel; '
+      'conformance: TLC judges the bit patterns of every cell of real bulk calls (one-vs-many, matrix, square, condensed) against the '
+      'two-signature distance of the same pair and against the correctly rounded ratio, over five reference containers incl. an HDF5 '
+      'file and a slice view, dtype pairs incl. a query wider than the references with values congruent mod 2^16, chunk sizes, index '
+      'selections (permutations, repeats, non-monotone runs, empty), caller-supplied and strided output buffers, 1..16 threads and '
+      'repeated runs.',
+      TRUSTED + 'The OpenMP schedule can be neither chosen nor observed here: race freedom rests on the OmpLoop model plus sampled repeated runs.',
+      'TLA+ spec (BulkDist, OmpLoop, JaccardMerge) model-checked with TLC; TLC judges every cell of real bulk computations bit-for-bit',
+      'DESIGN.md 5 (C05)')
+
+check('C06',
+      'TLC model check of a byte-level FASTA reader (one action per byte) over every rendering - contig order x per-contig '
+      'orientation x case x line width x LF/CRLF x final newline - of small genomes: the parsed records are the rendered contigs and the '
+      'file signature equals the union of the ORIGINAL contigs\' signatures (with a witness that concatenation would add a k-mer); '
+      'conformance (generator): TLC serialises every rendering of three conformance genomes as file bytes together with the signature '
+      'the specification requires; the harness writes them (gzip and six file extensions cycled independently), runs '
+      'calc_file_signature on all and `gambit signatures create` on a sample and compares; bundled real genomes re-rendered at random '
+      'must keep their signature.',
+      TRUSTED + 'gzip framing comes from Python\'s gzip module (opaque).',
+      'TLA+ spec (Fasta, FastaReader, KmerSig) model-checked with TLC; TLC-generated file renderings with required signatures replayed on the code',
+      'DESIGN.md 5 (C06)')
